@@ -16,6 +16,26 @@ import (
 type selTr struct {
 	lines  []string
 	arrays map[string]string // Go slice expression prefix (e.g. "scalars[i]") -> Lean list variable
+	named  bool              // wrap-around operations as the named functions u64add/u64sub/u64mul/u64shl
+}
+
+// wrap renders one wrapping uint64 operation
+func (t *selTr) wrap(op, a, b string) string {
+	if t.named {
+		return "(u64" + op + " " + a + " " + b + ")"
+	}
+	switch op {
+	case "shl":
+		return "((" + a + " <<< " + b + ") % " + w64 + ")"
+	case "add":
+		return "((" + a + " + " + b + ") % " + w64 + ")"
+	case "sub":
+		return "((" + a + " + " + w64 + " - " + b + ") % " + w64 + ")"
+	case "mul":
+		return "((" + a + " * " + b + ") % " + w64 + ")"
+	}
+	die("selector: unknown wrapping operation %s", op)
+	return ""
 }
 
 const w64 = "18446744073709551616"
@@ -58,7 +78,7 @@ func (t *selTr) expr(e ast.Expr) string {
 		a, b := t.expr(x.X), t.expr(x.Y)
 		switch x.Op {
 		case token.SHL:
-			return "((" + a + " <<< " + b + ") % " + w64 + ")"
+			return t.wrap("shl", a, b)
 		case token.SHR:
 			return "(" + a + " >>> " + b + ")"
 		case token.AND:
@@ -66,11 +86,11 @@ func (t *selTr) expr(e ast.Expr) string {
 		case token.OR:
 			return "(" + a + " ||| " + b + ")"
 		case token.ADD:
-			return "((" + a + " + " + b + ") % " + w64 + ")"
+			return t.wrap("add", a, b)
 		case token.SUB:
-			return "((" + a + " + " + w64 + " - " + b + ") % " + w64 + ")"
+			return t.wrap("sub", a, b)
 		case token.MUL:
-			return "((" + a + " * " + b + ") % " + w64 + ")"
+			return t.wrap("mul", a, b)
 		case token.QUO:
 			return "(" + a + " / " + b + ")"
 		case token.REM:
@@ -150,7 +170,7 @@ func (t *selTr) stmt(s ast.Stmt, ind string) []string {
 		case token.ASSIGN, token.DEFINE:
 			return []string{ind + "let " + n + " : Nat := " + t.expr(x.Rhs[0])}
 		case token.ADD_ASSIGN:
-			return []string{ind + "let " + n + " : Nat := ((" + n + " + " + t.expr(x.Rhs[0]) + ") % " + w64 + ")"}
+			return []string{ind + "let " + n + " : Nat := " + t.wrap("add", n, t.expr(x.Rhs[0]))}
 		case token.OR_ASSIGN:
 			return []string{ind + "let " + n + " : Nat := (" + n + " ||| " + t.expr(x.Rhs[0]) + ")"}
 		}
@@ -267,4 +287,126 @@ func translateSelectors(repo string) string {
 	emit("digitRead", "(s_index s_mask s_shift s_maskHigh s_shiftHigh : Nat) (s_multiWordSelect : Bool) (limbs : List Nat)", "Nat", "bits", nil, read,
 		map[string]string{"scalars[i]": "limbs"})
 	return b.String()
+}
+
+// ---------------------------------------------------------------------------------------------
+// PrecompPoint.ScalarMul (banderwagon/precomp.go): the body of the window loop, with the group
+// operations kept abstract (`ExtendedAddNormalized(res, res, &X)` is `res + X`, `pNeg.Neg(&X)`
+// is `-X`, `pp.windows[a][b]` is `windows a b`); the integer part with 64-bit wrap-around.
+
+type precompTr struct {
+	sel *selTr
+}
+
+func (p *precompTr) point(e ast.Expr) string {
+	if u, ok := e.(*ast.UnaryExpr); ok && u.Op == token.AND {
+		e = u.X
+	}
+	if ie, ok := e.(*ast.IndexExpr); ok {
+		if ie2, ok := ie.X.(*ast.IndexExpr); ok && exprStr(ie2.X) == "pp.windows" {
+			return "(windows (" + p.sel.expr(ie2.Index) + ") (" + p.sel.expr(ie.Index) + "))"
+		}
+	}
+	if id, ok := e.(*ast.Ident); ok {
+		return id.Name
+	}
+	die("precomp: unsupported point expression %s", exprStr(e))
+	return ""
+}
+
+// block translates a statement list; `k` is the continuation expression (the state tuple)
+func (p *precompTr) block(ss []ast.Stmt, ind string, k string) string {
+	if len(ss) == 0 {
+		return ind + k + "\n"
+	}
+	s, rest := ss[0], ss[1:]
+	switch x := s.(type) {
+	case *ast.AssignStmt:
+		return strings.Join(p.sel.stmt(x, ind), "\n") + "\n" + p.block(rest, ind, k)
+	case *ast.ExprStmt:
+		c, ok := x.X.(*ast.CallExpr)
+		if !ok {
+			die("precomp: unsupported statement %s", nodeStr(s))
+		}
+		switch fn := exprStr(c.Fun); {
+		case fn == "pNeg.Neg" && len(c.Args) == 1:
+			return ind + "let pNeg : G := -" + p.point(c.Args[0]) + "\n" + p.block(rest, ind, k)
+		case fn == "bandersnatch.ExtendedAddNormalized" && len(c.Args) == 3 && exprStr(c.Args[0]) == "res" && exprStr(c.Args[1]) == "res":
+			return ind + "let res : G := res + " + p.point(c.Args[2]) + "\n" + p.block(rest, ind, k)
+		}
+		die("precomp: unsupported call %s", nodeStr(s))
+	case *ast.BranchStmt:
+		if x.Tok == token.CONTINUE && x.Label == nil {
+			return ind + k + "\n" // the iteration ends here with the current state
+		}
+	case *ast.IfStmt:
+		// both branches continue with the statements after the `if` (assignments made in a
+		// branch stay visible); a branch may not declare a variable, whose Go scope would end
+		if x.Init != nil {
+			die("precomp: if with init")
+		}
+		noDefine := func(l []ast.Stmt) {
+			for _, st := range l {
+				if a, ok := st.(*ast.AssignStmt); ok && a.Tok == token.DEFINE {
+					die("precomp: declaration inside a branch: %s", nodeStr(st))
+				}
+			}
+		}
+		c := p.sel.cond(x.Cond)
+		var elseL []ast.Stmt
+		if x.Else != nil {
+			eb, ok := x.Else.(*ast.BlockStmt)
+			if !ok {
+				die("precomp: else-if")
+			}
+			elseL = eb.List
+		}
+		noDefine(x.Body.List)
+		noDefine(elseL)
+		thenS := p.block(append(append([]ast.Stmt{}, x.Body.List...), rest...), ind+"  ", k)
+		elseS := p.block(append(append([]ast.Stmt{}, elseL...), rest...), ind+"  ", k)
+		return ind + "if " + c + " then\n" + thenS + ind + "else\n" + elseS
+	}
+	die("precomp: unsupported statement %s", nodeStr(s))
+	return ""
+}
+
+func translatePrecompScalarMul(repo string) string {
+	f := parse(filepath.Join(repo, "banderwagon/precomp.go"))
+	fd := findMethodOf(f, "PrecompPoint", "ScalarMul")
+	norm := func(n ast.Node) string { return strings.Join(strings.Fields(nodeStr(n)), " ") }
+	// shape of the function around the loop body
+	var shape []string
+	var inner *ast.ForStmt
+	for _, s := range fd.Body.List {
+		if fs, ok := s.(*ast.ForStmt); ok {
+			shape = append(shape, "for "+norm(fs.Init)+"; "+norm(fs.Cond)+"; "+norm(fs.Post))
+			if len(fs.Body.List) != 1 {
+				die("precomp: the limb loop has %d statements", len(fs.Body.List))
+			}
+			in, ok := fs.Body.List[0].(*ast.ForStmt)
+			if !ok {
+				die("precomp: the limb loop does not contain the window loop only")
+			}
+			shape = append(shape, "for "+norm(in.Init)+"; "+norm(in.Cond)+"; "+norm(in.Post))
+			inner = in
+			continue
+		}
+		shape = append(shape, norm(s))
+	}
+	if inner == nil {
+		die("precomp: window loop not found")
+	}
+	p := &precompTr{sel: &selTr{arrays: map[string]string{"scalar": "scalarLimbs"}, named: true}}
+	body := p.block(inner.Body.List, "  ", "(res, carry)")
+	return "/-- Go's wrapping `uint64` operations -/\n" +
+		"def u64add (a b : Nat) : Nat := (a + b) % " + w64 + "\n" +
+		"def u64sub (a b : Nat) : Nat := (a + " + w64 + " - b) % " + w64 + "\n" +
+		"def u64mul (a b : Nat) : Nat := (a * b) % " + w64 + "\n" +
+		"def u64shl (a b : Nat) : Nat := (a <<< b) % " + w64 + "\n" +
+		"attribute [irreducible] u64add u64sub u64mul u64shl\n" +
+		"def precompShape : List String := [" + quoteAll(shape) + "]\n" +
+		"section\nvariable {G : Type} [Add G] [Neg G]\n" +
+		"def precompBody (pp_windowSize numWindowsInLimb : Nat) (windows : Nat → Nat → G) (scalarLimbs : List Nat) (l w : Nat) (res : G) (carry : Nat) : G × Nat :=\n" +
+		body + "end\n"
 }
